@@ -1,19 +1,139 @@
 package main
 
-import (
-	"fmt"
-	"os"
-	"time"
+// vipsim: executes abstract operation scripts against the real vipnode code
+// and records one ndjson trace line per operation (arguments, result and the
+// projected observable state).  Built twice: with the Go runtime's faketime
+// (deterministic clock, CGO off) and with the race detector (real clock).
 
-	"github.com/vipnode/vipnode/v2/pool/store/memory"
+import (
+	"encoding/json"
+	"fmt"
+	"io/ioutil"
+	"os"
+	"regexp"
+	"strings"
+	"time"
 )
 
+func fatal(format string, args ...interface{}) {
+	fmt.Fprintf(os.Stderr, "vipsim: "+format+"\n", args...)
+	if statusFile != "" {
+		ioutil.WriteFile(statusFile, []byte(fmt.Sprintf("FATAL "+format+"\n", args...)), 0644)
+	}
+	os.Exit(2)
+}
+
+var statusFile string
+
+var hex128 = regexp.MustCompile(`[0-9a-fA-F]{128}`)
+var braces = regexp.MustCompile(`\{([A-Za-z0-9_]+)\}`)
+
+// realURI replaces {name} by the concrete node id of that name.
+func (w *World) realURI(abs string) string {
+	return braces.ReplaceAllStringFunc(abs, func(m string) string {
+		return w.names.node(m[1 : len(m)-1])
+	})
+}
+
+// absURI replaces concrete node ids by {name}.
+func (w *World) absURI(real string) string {
+	return hex128.ReplaceAllStringFunc(real, func(m string) string {
+		a := w.names.abs(m)
+		if strings.HasPrefix(a, "raw:") {
+			return m
+		}
+		return "{" + a + "}"
+	})
+}
+
 func main() {
-	t0 := time.Now()
-	s := memory.New()
-	time.Sleep(120 * time.Second)
-	_ = s
-	f, _ := os.Create(os.Args[1])
-	fmt.Fprintf(f, "elapsed %v start %v\n", time.Since(t0), t0.UnixNano())
-	f.Close()
+	if len(os.Args) < 2 {
+		fatal("usage: vipsim <run|...> args")
+	}
+	switch os.Args[1] {
+	case "run":
+		// vipsim run <script.json> <trace.ndjson> <status file>
+		if len(os.Args) != 5 {
+			fatal("usage: vipsim run script trace status")
+		}
+		statusFile = os.Args[4]
+		runScript(os.Args[2], os.Args[3])
+		ioutil.WriteFile(statusFile, []byte("OK\n"), 0644)
+	default:
+		if !extraCommand(os.Args[1], os.Args[2:]) {
+			fatal("unknown command %q", os.Args[1])
+		}
+	}
+}
+
+type Script struct {
+	Driver string `json:"driver"`
+	Dir    string `json:"dir"`
+	Seed   int64  `json:"seed"`
+	Ops    []J    `json:"ops"`
+}
+
+func runScript(scriptPath, tracePath string) {
+	data, err := ioutil.ReadFile(scriptPath)
+	if err != nil {
+		fatal("%v", err)
+	}
+	var sc Script
+	if err := json.Unmarshal(data, &sc); err != nil {
+		fatal("script: %v", err)
+	}
+	tr, err := newTrace(tracePath)
+	if err != nil {
+		fatal("%v", err)
+	}
+	defer tr.close()
+	w := &World{driver: sc.Driver, dir: sc.Dir, seed: sc.Seed, tr: tr}
+	w.names = newNames(sc.Seed)
+	w.clock = Clock{epoch: time.Now()}
+	for k, op := range sc.Ops {
+		name := str(op, "op")
+		var r J
+		switch {
+		case name == "Reset":
+			w.clock = Clock{epoch: time.Now()}
+			if err := w.reset(op); err != nil {
+				tr.close()
+				fatal("op %d reset: %v", k, err)
+			}
+			r = res(nil, nil)
+		case name == "Sleep":
+			time.Sleep(time.Duration(num(op, "d")) * time.Second)
+			r = res(nil, nil)
+		case w.store == nil:
+			tr.close()
+			fatal("op %d before Reset", k)
+		case isPoolOp(name):
+			r, err = w.poolOp(op)
+			if err != nil {
+				tr.close()
+				fatal("op %d %s: %v", k, name, err)
+			}
+		default:
+			r, err = w.storeOp(op)
+			if err != nil {
+				tr.close()
+				fatal("op %d %s: %v", k, name, err)
+			}
+		}
+		st, err := w.project()
+		if err != nil {
+			tr.close()
+			fatal("op %d %s: projection: %v", k, name, err)
+		}
+		if w.pool != nil {
+			w.pool.project(st)
+		}
+		tr.emit(J{"op": name, "a": op, "r": r, "now": w.clock.now(), "st": st})
+	}
+	if w.pool != nil {
+		w.pool.shutdown()
+	}
+	if w.store != nil {
+		w.store.Close()
+	}
 }
